@@ -20,6 +20,7 @@ open AITB AITB.Pol
     pgaapp  <comp> n S lr pl k { s q[n] }       | k×row[n] S×row[n] ns { s u act }
     thompson <comp> n cnt[n] val[n]             | act                                    val = the implementation-side posterior draws
     mc      <comp> n                            | policy[n] probs[n] ns { act }          Monte-Carlo tables: range / normalisation only
+    mc2     <comp> n trials cnt[n] qtrials qcnt[n] | policy[n] probs[n]                  Monte-Carlo tables vs the sampling counts of an identical copy
     esrl    <comp> n a N phases window k { act res } | (k+1)×( exploit probs[n] policy[n] act )
     sr      <comp> n k { nk mean[n] }           | nk1 (k+1)×( cur probs[n] policy[n] )
     toptwo  <comp> n cnt[n] beta u k inner[k]   | act        inner = the next k answers of the (shadowed) inner Thompson policy, u drives pickBest
@@ -353,6 +354,27 @@ def mc : P String := do
   let v := v.failIf (samp.any (· ≥ n)) s!"{comp} sample_out_of_range {samp}"
   return v.render
 
+/-- Monte-Carlo tables against the sampling frequencies of an identical copy of the policy (same engine state):
+    `mc2 <comp> n trials cnt[n] qtrials qcnt[n] | policy[n] probs[n]` -/
+def mc2 : P String := do
+  let comp ← P.tok; let n ← P.nat; let trials ← P.nat; let cnt ← P.rep P.nat n
+  let qtrials ← P.nat; let qcnt ← P.rep P.nat n; P.bar
+  let policy ← P.rep P.q n; let probs ← P.rep P.q n; P.eof
+  let v : Verdict := { tag := "mc2" }
+  let cf := fun i => cnt.getD i 0
+  let mT := tab n (mcTable n cf)
+  let mP := tab n (fun a => mcQuery qtrials (qcnt.getD a 0))
+  let v := v.diffIf (!(closeL mT policy)) s!"{comp} getPolicy model={showL mT} impl={showL policy}"
+  let v := v.diffIf (!(closeL mP probs)) s!"{comp} getActionProbability model={showL mP} impl={showL probs}"
+  -- property clauses on the implementation's own outputs: the table is a distribution, it advertises exactly the sampling
+  -- frequencies (positive only on sampled actions), every sample was in range
+  let v := rowClauses v comp "table" policy
+  let v := v.failIf (probs.any (fun p => p < 0 || p > 1)) s!"{comp} query_negative {showL probs}"
+  let v := v.failIf (cnt.foldl (· + ·) 0 != trials) s!"{comp} sample_out_of_range total={cnt.foldl (· + ·) 0} trials={trials}"
+  let v := v.failIf ((List.range n).any (fun a => decide (policy.getD a 0 > 0) && cf a == 0)) s!"{comp} table_mass_on_unsampled {showL policy}"
+  let v := v.failIf ((List.range n).any (fun a => decide (policy.getD a 0 ≤ 0) && cf a != 0)) s!"{comp} sample_zero_prob {cnt}"
+  return v.render
+
 def esrl : P String := do
   let comp ← P.tok; let n ← P.nat; let a ← P.q; let N ← P.nat; let phases ← P.nat; let window ← P.nat; let k ← P.nat
   let ops ← P.rep (do let act ← P.nat; let r ← P.bool; pure (act, r)) k; P.bar
@@ -464,6 +486,7 @@ def handle (toks : List String) : String :=
     | "pgaapp" :: rest => P.run pgaapp rest
     | "thompson" :: rest => P.run thompson rest
     | "mc" :: rest => P.run mc rest
+    | "mc2" :: rest => P.run mc2 rest
     | "esrl" :: rest => P.run esrl rest
     | "sr" :: rest => P.run sr rest
     | "joint" :: rest => P.run joint rest
